@@ -160,6 +160,11 @@ class Scenario(object):
         w.dc = dc2
         for n, d in zip(old_names, dc2):
             w.pool[n] = d
+        # datasets that were outside the collection belong to the old session (and its hub); the restored
+        # session gets new ones, as a user loading more data into it would
+        for n in ('d0', 'd1', 'd2'):
+            if n not in old_names:
+                w.pool[n] = w.fresh(n)
         w.session = Session(data_collection=dc2)
         w.stack = w.session.command_stack
         w.mode = w.session.edit_subset_mode
@@ -178,8 +183,8 @@ class Scenario(object):
 
 def tiers(tier):
     if tier == 'quick':
-        return [('core', Scenario(max_groups=2, n_states=2, stack=False, roundtrip=False, edits=False), 6),
-                ('full', Scenario(max_groups=1, n_states=2, names=('d0', 'd1')), 4)]
+        return [('core', Scenario(max_groups=2, n_states=2, stack=False, roundtrip=False, edits=False), 7),
+                ('full', Scenario(max_groups=2, n_states=1, names=('d0', 'd1')), 5)]
     return [('core', Scenario(max_groups=2, n_states=2, stack=False, roundtrip=False), 7),
             ('full', Scenario(max_groups=2, n_states=2), 5)]
 
